@@ -844,7 +844,12 @@ func IntoObject(injector Injector, sidecarTemplate Templates, valuesConfig Value
 	}
 
 	if patchBytes == nil {
-		if !injectRequired(IgnoredNamespaces.UnsortedList(), &Config{Policy: InjectionPolicyEnabled}, &pod.Spec, pod.ObjectMeta) {
+		// the namespace of the pod is the template's, else the workload's (as the webhook falls back to the request namespace)
+		decisionMeta := pod.ObjectMeta
+		if decisionMeta.Namespace == "" {
+			decisionMeta.Namespace = namespace
+		}
+		if !injectRequired(IgnoredNamespaces.UnsortedList(), &Config{Policy: InjectionPolicyEnabled}, &pod.Spec, decisionMeta) {
 			warningStr := fmt.Sprintf("===> Skipping injection because %q has sidecar injection disabled\n", fullName)
 			if kind != "" {
 				warningStr = fmt.Sprintf("===> Skipping injection because %s %q has sidecar injection disabled\n",
